@@ -1122,7 +1122,7 @@ func RunSliceExpr(ctx *Task, expr *ast.SliceExpr) (any, ast.DType, *errchain.PlE
 			if endInt > length {
 				endInt = length
 			}
-			result := make([]any, 0, (endInt-startInt+stepInt-1)/stepInt)
+			result := make([]any, 0)
 			for i := startInt; i < endInt; i += stepInt {
 				result = append(result, list[i])
 			}
@@ -1134,7 +1134,7 @@ func RunSliceExpr(ctx *Task, expr *ast.SliceExpr) (any, ast.DType, *errchain.PlE
 			if endInt < 0 {
 				endInt = -1
 			}
-			result := make([]any, 0, (startInt-endInt-stepInt-1)/(-stepInt))
+			result := make([]any, 0)
 			for i := startInt; i > endInt; i += stepInt {
 				result = append(result, list[i])
 			}
